@@ -3,5 +3,6 @@ CONSTANTS
   CurveP = {1,2,3}
   Seed = 1
 INVARIANT T_Affine
+INVARIANT T_RoundTrip
 INVARIANT EmitC
 CHECK_DEADLOCK FALSE
